@@ -42,6 +42,14 @@ class VirtualFile(object):
         self.file_exists = False
 
     def get_coco_files(self):
+        # A cassette image can be as long as a disk image, so look for a tape header first
+        try:
+            cassette_file = CassetteFile(buffer=self.source_file.get_buffer())
+            if cassette_file.starts_with_header():
+                return cassette_file.list_files(), VirtualFileType.CASSETTE
+        except VirtualFileValidationError:
+            pass
+
         try:
             disk_file = DiskFile(buffer=self.source_file.get_buffer())
             return disk_file.list_files(), VirtualFileType.DISK
